@@ -3,7 +3,7 @@ from props._e3 import make
 
 globals().update(make(
     'C08', ('route',),
-    [('groups', 6), ('general', 4), ('batching', 1), ('contention', 1)],
+    [('groups', 6), ('general', 4), ('parallel', 4), ('batching', 1), ('contention', 1)],
     'Oracle: a route graph derived from the SPEC (rewiring included from the moment it happened). At every quiescent '
     'instant and at the end, for every generated leaf part: its routing history starts with its source; every '
     'consecutive pair is a configured edge, where a group path leads to the input device(s) of its group and an output '
